@@ -115,3 +115,34 @@ Print Assumptions C02_filter_chain.
 Print Assumptions C02_apply_gate.
 Print Assumptions C02_apply_policy.
 Print Assumptions C02_policy_matrix.
+
+(* ---- the monitor of the correspondence harness, as a theorem about the model -----------------
+   `mon_C02` (Corr/CorrPipeline.v) = `c02_walk` (replays the accepted requests of the trace to
+   know which objects exist, with which owner and UID, and checks at every delete request: the
+   object was tracked, is absent from the apply set, its plan-time owner is acceptable under the
+   policy, no deletion-prevention annotation, not a namespace in use, not the same UID as an
+   object applied by this run, plan-time UID as precondition, configured propagation policy; at
+   every apply request: the current owner is acceptable under the policy) && (outside dry-run and
+   without error event: every spared object that carried a deletion-prevention annotation is no
+   longer owned and has left the inventory).  Both conjuncts hold of every run of the model.
+   Hypothesis: `WF sc c0` of Properties/C01.v, of which only the first two clauses are used (an
+   apply set names each object once; the initial cluster names each object once).
+   `C02_monitor_uids` is the variant whose hypothesis is about the initial cluster only
+   (distinct ids, one UID per object: then the alias clause is vacuous). *)
+From CliUtils Require Import Corr.CorrPipeline Proofs.PipelineOrphansRun Proofs.PipelineMonBase
+     Proofs.PipelineMonC02a Proofs.PipelineMonC02.
+
+Theorem C02_monitor : forall sc c0, WF sc c0 -> mon_C02 sc c0 (run sc c0) = true.
+Proof. exact monitor_C02. Qed.
+
+Theorem C02_monitor_nodup : forall sc c0, NoDup (map c_id (objs c0)) -> locals_nodup sc ->
+  mon_C02 sc c0 (run sc c0) = true.
+Proof. exact monitor_C02_strong. Qed.
+
+Theorem C02_monitor_uids : forall sc c0, NoDup (map c_id (objs c0)) -> uid_inj c0 ->
+  mon_C02 sc c0 (run sc c0) = true.
+Proof. exact monitor_C02_min. Qed.
+
+Print Assumptions C02_monitor.
+Print Assumptions C02_monitor_nodup.
+Print Assumptions C02_monitor_uids.
